@@ -93,7 +93,7 @@ def build_scene(case, name):
             # column sits up to a cell inside the frame; a keypoint beyond it by more than half a cell cannot be located to half a cell by any decoder)
             eff_ = e2e.eff_scale_for(H, W, tuple(case["max_hw"]) if isinstance(case["max_hw"], (list, tuple)) else (case["H"], case["W"]))
             cell_ = max(case["stride"] / case["scale"], 0) / eff_ if case["model"] == "single" else max(case["c_stride"] / case["c_scale"], case["i_stride"] / case["i_scale"]) / eff_
-            P = e2e.make_poses(r, H, W, case["n_nodes"], case["n_animals"], missing_p=case["missing_p"], margin=case.get("margin", 20.0) if case.get("fixed_margin") else max(case.get("margin", 20.0), 1.1 * cell_ + 1.0))
+            P = e2e.make_poses(r, H, W, case["n_nodes"], case["n_animals"], missing_p=case["missing_p"], margin=case.get("margin", 20.0) if case.get("fixed_margin") else min(max(case.get("margin", 20.0), 1.1 * cell_ + 1.0), max(20.0, min(H, W) / 2.0 - 24.0)))
             if case["model"] == "topdown" and len(P) > 1:
                 # well-separated premise at the centroid stage: the ideal centroid bumps (sigma 1.5 cells) of two animals must stay two peaks,
                 # i.e. the centroids are >= 4.5 sigma apart on the centroid grid; animals that are closer are left out of the frame
